@@ -6,7 +6,7 @@
    No axioms: every Print Assumptions below must say "Closed under the global context". *)
 From Coq Require Import ZArith NArith List Bool.
 From GV Require Import Pattern.Common Pattern.Build Pattern.Machine Pattern.Spec Pattern.Drivers
-  Pattern.Top Pattern.Proofs Pattern.BuildProofs Pattern.Equiv Pattern.Full Pattern.Refuted.
+  Pattern.Top Pattern.Proofs Pattern.BuildProofs Pattern.Equiv Pattern.Full Pattern.Terminate Pattern.BuildWf Pattern.Main Pattern.Charges Pattern.DriverProofs Pattern.Refuted.
 Import ListNotations.
 Open Scope Z_scope.
 
@@ -146,11 +146,93 @@ Theorem C15_api_beyond_end :
 Proof. exact api_beyond_end. Qed.
 Print Assumptions C15_api_beyond_end.
 
+(* machine_terminates, explicit bound.  For EVERY item list (well formed or
+   not), subject, state and budget: fuel >= mu st (a weight computed from the
+   state) suffices; from a start state mu <= cost |s| items, where
+     cost [] = 2;  cost (x* | x+ :: r) = 1 + (|s|+2) * cost r;  cost (x? :: r) = 1 + 3 * cost r;
+     cost (x- :: r) = (|s|+1) * (1 + cost r);  cost (other :: r) = 1 + cost r. *)
+Theorem C15_machine_terminates :
+  forall items ea s fuel B u st,
+  mu items s st <= Z.of_nat fuel -> fst (run items ea s fuel B u st) <> OOutOfFuel.
+Proof. exact machine_terminates. Qed.
+Print Assumptions C15_machine_terminates.
+
+Theorem C15_mu_start : forall items s init c, mu items s (start_state init c) <= cost s items.
+Proof. exact mu_start. Qed.
+Print Assumptions C15_mu_start.
+
+(* the extracted Match / MatchFromStart never answer "out of fuel" when run
+   with fuel_bound s items = cost |s| items (the oracle reports whether its
+   fixed fuel is above this bound for each case) *)
+Theorem C15_api_terminates :
+  forall fromStart p s init B fuel,
+  (fuel_bound s (p_items p) <= fuel)%nat -> a_res (api fromStart p fuel s init B) <> MFuel.
+Proof. exact api_terminates. Qed.
+Print Assumptions C15_api_terminates.
+
 (* the pattern compiler (model of builder.go) never raises a Go index panic,
    for every byte string given as a pattern *)
 Theorem C15_build_no_panic : forall ptn, build ptn <> BPanic.
 Proof. exact build_no_panic. Qed.
 Print Assumptions C15_build_no_panic.
+
+(* ---- round 3 *)
+
+(* build_wf: every pattern string the compiler model accepts satisfies the
+   well-formedness hypothesis of the simulation theorems *)
+Theorem C15_build_wf : forall ptn p, build ptn = Ok p -> wf_pattern p = true.
+Proof. exact build_wf. Qed.
+Print Assumptions C15_build_wf.
+
+(* the main statement, hypothesis-free and with explicit fuel: for every
+   pattern string accepted by the compiler, every subject and start position,
+   Pattern.Match / MatchFromStart (trackback machine + find loop + recover),
+   run with fuel >= cost |s| items, return exactly the leftmost match and the
+   captures of the manual-level matcher; no panic, no fuel exhaustion *)
+Theorem C15_match_follows_manual :
+  forall ptn p fromStart s init f,
+  build ptn = Ok p -> 0 <= init <= slen s -> (fuel_bound s (p_items p) <= f)%nat ->
+  api fromStart p f s init 0 =
+  mkApi (match spec_find_list p (fromStart && p_sanchor p) s init with
+         | Some l => MCaps l | None => MNil end) 0 false.
+Proof. exact match_follows_manual. Qed.
+Print Assumptions C15_match_follows_manual.
+
+(* budget_charges ("matching work is charged"): steps <= Phi st + 2(|items|+2) * ticks,
+   Phi (start state) <= |items| + 2, for every item list, subject and state *)
+Theorem C15_budget_charges :
+  forall items ea s f u st o u' n,
+  runs items ea s f u st = (o, u', n) ->
+  Z.of_nat n <= Phi items st + 2 * (Z.of_nat (length items) + 2) * (u' - u) /\ u <= u'.
+Proof. exact budget_charges. Qed.
+Print Assumptions C15_budget_charges.
+
+Theorem C15_runs_is_run :
+  forall items ea s f u st, fst (runs items ea s f u st) = run items ea s f 0 u st.
+Proof. exact runs_run. Qed.
+Print Assumptions C15_runs_is_run.
+
+Theorem C15_Phi_start :
+  forall items init c, Phi items (start_state init c) <= Z.of_nat (length items) + 2.
+Proof. exact Phi_start. Qed.
+Print Assumptions C15_Phi_start.
+
+(* Spec: a match lies inside the subject and does not end before it starts *)
+Theorem C15_spec_match_range :
+  forall ea s items i c e c', 0 <= i <= slen s -> M ea s items i c = Some (e, c') -> i <= e <= slen s.
+Proof. exact M_range. Qed.
+Print Assumptions C15_spec_match_range.
+
+(* gsub_progress: each iteration of the gsub loop / gmatch iterator moves the
+   search position strictly forward and keeps it <= |s|+1, for every accepted
+   pattern — empty matches included *)
+Theorem C15_gsub_iteration_progress :
+  forall fromStart ptn p s si f st en rest,
+  build ptn = Ok p -> 0 <= si <= slen s -> (fuel_bound s (p_items p) <= f)%nat ->
+  a_res (api fromStart p f s si 0) = MCaps ((st, en) :: rest) ->
+  si < (if en <=? st then st + 1 else en) /\ (if en <=? st then st + 1 else en) <= slen s + 1.
+Proof. exact gsub_iteration_progress. Qed.
+Print Assumptions C15_gsub_iteration_progress.
 
 (* ---- refuted on the code as it stands (faithful IM; witness replayed on Go) *)
 
